@@ -307,6 +307,20 @@ def r20_3(ctx, repo):
                      and isinstance(c.func, ast.Attribute)
                      and c.func.attr == 'rank']
             if len(ranks) != 1:
+                quant = [c for c in ast.walk(fn) if isinstance(c, ast.Call)
+                         and isinstance(c.func, ast.Attribute)
+                         and c.func.attr in ('quantile', 'percentile',
+                                             'nanquantile', 'nanpercentile')]
+                if quant and not ranks:
+                    ctx.violation(
+                        rule, repo.loc(quant[0], cls, fn.name), construct,
+                        'interpolated quantiles',
+                        '`%s` computes the band limits by interpolating '
+                        'between order statistics: the limits are no longer '
+                        'sample values of that time point and can enclose '
+                        'fewer samples than the requested share' % U(
+                            quant[0])[:50])
+                    continue
                 ctx.error(rule, '%s: rank call not found' % construct)
                 continue
             r = ranks[0]
